@@ -224,7 +224,7 @@ func runMuxOn(sc *muxScenario, rec *recorder, w *recWriter) {
 		before := w.buf.Len()
 		wcBefore := w.wcalls
 		firedBefore := w.fired
-		e := M{"ev": "call", "op": op.Op, "i": oi, "pid": resolve(op.PID)}
+		e := M{"ev": "call", "op": op.Op, "i": oi, "pid": resolve(op.PID) & 0x1fff} // the PID as it appears on the wire
 		var n int
 		var err error
 		var panicked interface{}
@@ -236,7 +236,7 @@ func runMuxOn(sc *muxScenario, rec *recorder, w *recWriter) {
 				err = m.AddElementaryStream(astits.PMTElementaryStream{ElementaryPID: uint16(op.PID), StreamType: astits.StreamType(op.ST), ElementaryStreamDescriptors: ds})
 				e["st"] = op.ST
 				e["desc"] = flat
-				e["pid"] = op.PID
+				e["pid"] = op.PID & 0x1fff
 				apid := op.PID
 				if err == nil {
 					s := astits.VerifMuxerState(m)
@@ -245,7 +245,7 @@ func runMuxOn(sc *muxScenario, rec *recorder, w *recWriter) {
 						autoPIDs = append(autoPIDs, apid)
 					}
 				}
-				e["apid"] = apid
+				e["apid"] = apid & 0x1fff
 			case "remove":
 				err = m.RemoveElementaryStream(uint16(resolve(op.PID)))
 			case "setpcr":
